@@ -155,3 +155,96 @@ func H12_completion() {
 	vrtReach("C12.completed")
 	svc.stop()
 }
+
+// H12two_qos2: two QoS 2 publishes in flight whose handshakes overlap in
+// every order the peer may choose: a completion never fires before the
+// PUBCOMP with its identifier has arrived, and fires at the latest once that
+// PUBCOMP and those of all earlier requests have arrived.
+func H12two_qos2() {
+	svc, c := vrtClientService()
+	done := [2]int{}
+	var ackTyp [2]message.Type
+	var ackID [2]uint16
+	ids := [2]uint16{}
+	for i := 0; i < 2; i++ {
+		i := i
+		m := message.NewPublishMessage()
+		m.SetTopic([]byte("t"))
+		m.SetPayload([]byte{byte('a' + i)})
+		m.SetQoS(2)
+		err := svc.publish(m, func(msg, ack message.Message, err error) error {
+			done[i]++
+			if ack != nil {
+				ackTyp[i] = ack.Type()
+				ackID[i] = ack.PacketID()
+			}
+			return nil
+		})
+		vrtAssert("C12.call_ok", err == nil)
+		ids[i] = m.PacketID()
+	}
+	vrtQuiesce()
+	pk, ok := vrtParse(c.peerTake())
+	ok = ok && len(pk) == 2
+	if ok {
+		ok = pk[0].Typ == specPUBLISH && pk[1].Typ == specPUBLISH && pk[0].ID == ids[0] && pk[1].ID == ids[1]
+	}
+	vrtAssert("C12.two_publishes_on_wire", ok)
+	vrtAssert("C12.ids_nonzero_distinct", ids[0] != 0 && ids[1] != 0 && ids[0] != ids[1])
+	if !ok {
+		return
+	}
+	// the peer's remaining steps: PUBREC x, PUBCOMP x (after the PUBREL) for x in {0,1}; any interleaving
+	rec := [2]bool{}
+	rel := [2]bool{}
+	comp := [2]bool{}
+	for step := 0; step < 4; step++ {
+		var opts []int // 0,1: PUBREC of request 0/1; 2,3: PUBCOMP of request 0/1
+		for x := 0; x < 2; x++ {
+			if !rec[x] {
+				opts = append(opts, x)
+			} else if rel[x] && !comp[x] {
+				opts = append(opts, 2+x)
+			}
+		}
+		if len(opts) == 0 {
+			break
+		}
+		o := opts[vrtChoice(fmt.Sprintf("step%d", step), len(opts))]
+		x := o & 1
+		if o < 2 {
+			c.peerSend(specEncode(&specPkt{Typ: specPUBREC, ID: ids[x]}))
+			rec[x] = true
+			vrtQuiesce()
+			out, okp := vrtParse(c.peerTake())
+			good := okp && len(out) == 1
+			if good {
+				good = out[0].Typ == specPUBREL && out[0].ID == ids[x]
+			}
+			vrtAssert("C12.pubrel_follows_pubrec_same_id", good)
+			rel[x] = good
+		} else {
+			c.peerSend(specEncode(&specPkt{Typ: specPUBCOMP, ID: ids[x]}))
+			comp[x] = true
+			vrtQuiesce()
+		}
+		for y := 0; y < 2; y++ {
+			if !comp[y] {
+				vrtAssert("C12.no_completion_before_pubcomp", done[y] == 0)
+			}
+		}
+		if comp[0] {
+			vrtAssert("C12.completion_once_after_pubcomp", done[0] == 1)
+		}
+		if comp[0] && comp[1] {
+			vrtAssert("C12.completion_once_after_pubcomp", done[1] == 1)
+		}
+	}
+	vrtAssert("C12.both_completed_once", done[0] == 1 && done[1] == 1)
+	for y := 0; y < 2; y++ {
+		vrtAssert("C12.completion_carries_pubcomp", ackTyp[y] == message.PUBCOMP && ackID[y] == ids[y])
+	}
+	vrtObserve("two", done[0], done[1])
+	vrtReach("C12.two_completed")
+	svc.stop()
+}
